@@ -109,6 +109,7 @@ type Run struct {
 	cpPos       int
 	engineOnly  bool
 	sess        *Session
+	raceSeen    map[string]bool
 }
 
 func (r *Run) addPC(c *Term) {
